@@ -21,14 +21,23 @@ cp /verif/go.sum "$bd/go.sum" 2>/dev/null
 # clearing per chain open; histories open thousands of chains). Only the numeric
 # value of that one constant is replaced; if the line is absent the file is used
 # unchanged.
+# Likewise an empty UTXO database pre-sizes each of its 256 maps for 100e3 records
+# (~600 MB of map buckets per open of a directory without a snapshot); only that
+# capacity hint is replaced.
 ov="$bd/overlay.json"
 src="$REPO/lib/chain/const.go"
+src2="$REPO/lib/utxo/unspent_db.go"
+rep=""
 if grep -q 'BlockMapInitLen = 500e3' "$src" 2>/dev/null; then
   sed 's/BlockMapInitLen = 500e3/BlockMapInitLen = 512/' "$src" > "$bd/const.go"
-  printf '{"Replace":{"%s":"%s"}}\n' "$src" "$bd/const.go" > "$ov"
-else
-  printf '{"Replace":{}}\n' > "$ov"
+  rep="\"$src\":\"$bd/const.go\""
 fi
+if grep -q 'make(map\[UtxoKeyType\]\*\[\]byte, 100e3)' "$src2" 2>/dev/null; then
+  sed 's/make(map\[UtxoKeyType\]\*\[\]byte, 100e3)/make(map[UtxoKeyType]*[]byte, 64)/' "$src2" > "$bd/unspent_db.go"
+  [ -n "$rep" ] && rep="$rep,"
+  rep="$rep\"$src2\":\"$bd/unspent_db.go\""
+fi
+printf '{"Replace":{%s}}\n' "$rep" > "$ov"
 # optional per-check overlay generator: checks/<chk>/overlay.sh <builddir> <overlay.json> <repo>
 if [ -x "/verif/checks/$chk/overlay.sh" ]; then
   "/verif/checks/$chk/overlay.sh" "$bd" "$ov" "$REPO" || { echo "HARNESS-ERROR: overlay generation failed" >&2; exit 2; }
